@@ -23,7 +23,8 @@ Diff(m, o) == IF Len(m) # Len(o) THEN {<<"length", Len(m), Len(o)>>}
               ELSE {<<i - 1, m[i], o[i]>> : i \in {j \in 1..Len(m) : m[j] # o[j]}}
 
 \* the walk without the text flag (the observed arena does not say whether a section has a text)
-NoTxt(w) == [i \in 1..Len(w) |-> <<w[i][1], w[i][3]>>]
+NoTxt(w) == [i \in 1..Len(w) |-> <<w[i][1], w[i][3], w[i][4]>>]
+NoTxtSD(w) == [i \in 1..Len(w) |-> <<w[i][1], w[i][3]>>]
 
 Reasons(e) ==
     LET m == Build(e.blocks)
@@ -32,7 +33,10 @@ Reasons(e) ==
     IN  IF panicked THEN {<<"panic">>}
         ELSE {<<"model", d>> : d \in Diff(Strip(m), Strip(o))}
              \cup (IF WellLinked(o) THEN {} ELSE {<<"linked">>})
-             \cup (IF WellLinked(o) /\ NoTxt(WalkSeq(o, At(o, 0).child, 0)) # NoTxt(DocSeq(e.blocks, 0)) THEN {<<"walk">>} ELSE {})
+             \cup (IF ~WellLinked(o) THEN {}
+                   ELSE LET w == WalkSeq(o, At(o, 0).child, 0, 0) d == DocSeq(e.blocks, 0)
+                        IN  IF NoTxtSD(w) # NoTxtSD(d) THEN {<<"walk">>}
+                            ELSE IF AllWN(e.blocks, 1) /\ NoTxt(w) # NoTxt(d) THEN {<<"walk", "section-depth">>} ELSE {})
 
 TInit == l = 1
 TNext == /\ l <= Len(Rec)
